@@ -45,6 +45,55 @@ def native_fmmu(name, conc, notes):
                       f"LWR={lwr[2]} (2 terminals written), counters={p.counters}"}
 
 
+def native_resend(name, conc, notes):
+    """a real SyncGroup whose third response is lost: what is sent afterwards"""
+    import asyncio
+    from ebpfcat.ebpfcat import SyncGroup
+    sent, made = [], []
+
+    class Fut(asyncio.Future):
+        pass
+
+    class EC:
+        def roundtrip_packet(self, data, index):
+            sent.append(bytes(data))
+            f = asyncio.get_event_loop().create_future()
+            n = len(sent)
+            if n != 3:                       # the third frame is lost
+                asyncio.get_event_loop().call_soon(f.set_result, b"response %d" % n)
+            return f
+
+    class G(SyncGroup):
+        def update_devices(self, data):
+            made.append(b"frame after " + bytes(data))
+            if len(made) >= 4:
+                self.running = False
+            return made[-1]
+    g = object.__new__(G)
+    g.ec, g.asm_packet, g.packet_index, g.name = EC(), b"assembled frame", 77, "g"
+    g.terminals, g.cycletime, g.running, g.missed_counter, g.wkc_errors = {}, 0.0, True, 0, 0
+    import contextlib
+
+    @contextlib.asynccontextmanager
+    async def no_fmmu():
+        yield
+    g.map_fmmu = no_fmmu
+    try:
+        asyncio.run(asyncio.wait_for(g.run(), 5))
+    except Exception as e:      # noqa
+        return {"inputs": "third response lost", "reproduced": True, "detail": f"{type(e).__name__}: {e}"}
+    want = [b"assembled frame"]
+    k = 0
+    for i in range(1, len(sent)):
+        if i == 3:
+            want.append(want[-1])            # the resend after the timeout
+        else:
+            want.append(made[k])
+            k += 1
+    return {"inputs": {"scenario": "four cycles, the response to the third frame is lost"}, "reproduced": sent != want,
+            "detail": f"real SyncGroupBase.run: frames sent {sent}; expected {want}"}
+
+
 def run(tier, seed):
     from contracts import c30_slow as S
     rep = R.Report("C30", tier, seed)
@@ -63,6 +112,18 @@ def run(tier, seed):
     api.verify(S18.s_append_fmmu, rep, replay=native_fmmu)
     for c in S.CONTRACTS:
         api.verify(c, rep, replay=lambda n, i, nt, c=c: native(c, n, i, nt))
+    # which frame the group's run() puts onto the bus: the assembled frame at
+    # first, then what the last update_devices returned - also after a timeout
+    from contracts import c24_cancel as S24
+    saved = dict(api.REGISTRY)
+    S24.install()
+    try:
+        api.verify(S24.run_frames_contract(), rep, replay=native_resend)
+    finally:
+        api.REGISTRY.clear()
+        api.REGISTRY.update(saved)
+    rep.bound("SyncGroupBase.run: the frames of the first three cycles, every combination of response and timeout "
+              "(loop unrolled; update_devices and the bus by contract)")
     return rep.finish(
         explanation="pyvc: the real source of SyncGroup.update_devices is executed symbolically for frames with "
         "0..3 datagrams against the working-counter clauses of the property (16-bit counters)",
